@@ -11,6 +11,8 @@ structure DS where
   s : St := {}
   keys : List String := ["k0", "k1", "k2", "k3", "k4"]
   names : List String := ["m0", "m1", "u0", "u1", "u2"]
+  /-- generated (autogen) transactions: applied by PlayForMiner like a coinbase, but they do not count as coinbase for the ledger -/
+  autogen : List Nat := []
 deriving Inhabited
 
 def kvOf (ws : List String) : List (String × String) :=
@@ -130,6 +132,13 @@ def ledgerObs (d : DS) : String :=
 
 def ledgerH (d : DS) : Int := d.l.trunkHeight
 
+/-- the environment as a *verifying* node sees it (Play, Walk): a fabricated generated transaction does not pass
+`ImmediateVerifyAutoTx` (it is not what the timer task produces), so it is inadmissible there; only the producer's
+`PlayForMiner` applies it unverified. The poison is an extra read of a key that never exists: admission fails, undo is unaffected. -/
+def verifyEnv (d : DS) : Env :=
+  { d.env with txs := d.env.txs.map (fun p =>
+      if d.autogen.contains p.1 then (p.1, { p.2 with kin := ⟨"!autogen", some (0, 999999)⟩ :: p.2.kin }) else p) }
+
 def step (d : DS) (line : String) : DS × String :=
   let ws := words line
   match ws with
@@ -145,15 +154,15 @@ def step (d : DS) (line : String) : DS × String :=
         let (_, r) := doTx d.env d.s (ledgerH d) (arg 0)
         (d, if r == .ok then "fault" else r.toString)
       | "play" =>
-        let (_, r) := play d.env d.s (ledgerH d) (d.env.block (arg 0))
-        (d, if r == .ok then "fault" else "fail:" ++ r.toString)
+        let (_, r) := play (verifyEnv d) d.s (ledgerH d) (d.env.block (arg 0))
+        (d, if r == .ok then "fault" else "fail")
       | "playminer" =>
         let (_, r) := playForMiner d.env d.s (ledgerH d) (d.env.block (arg 0))
-        (d, if r == .ok then "fault" else "fail:" ++ r.toString)
+        (d, if r == .ok then "fault" else "fail")
       | "walk" => (d, "fault")
       | "confirm" =>
         let b := d.env.block (arg 0)
-        let txs := b.txs.map (fun t => (t, (d.env.tx t).coinbase))
+        let txs := b.txs.map (fun t => (t, (d.env.tx t).coinbase && !d.autogen.contains t))
         let (_, st) := XV.Ledger.confirm d.l b.id (b.pre.getD 0) txs
         (d, if st == .fail then "fail" else "fault")
       | _ => (d, "bad-op")
@@ -166,10 +175,17 @@ def step (d : DS) (line : String) : DS × String :=
       let env : Env := { txs := [(0, rootTx)], blocks := [(0, ⟨0, none, 0, [0], "-"⟩)],
                          window := ((getKV kv "w").toInt?).getD 0 }
       let s0 : St := applyTx {} rootTx
-      ({ d with env := env, l := XV.Ledger.genesis 0 [0], s := { s0 with pointer := 0 } }, "ok")
+      ({ d with env := env, l := XV.Ledger.genesis 0 [0], s := { s0 with pointer := 0 }, autogen := [] }, "ok")
     | "xtx" | "ktx" =>
       match parseTx (arg 0) kv with
       | some t => ({ d with env := { d.env with txs := d.env.txs ++ [(t.id, t)] } }, "-")
+      | none => (d, "bad-op")
+    | "atx" =>
+      -- no token part: in the model the flag `coinbase` only matters for token outputs, the balance exemption and for
+      -- PlayForMiner applying the transaction itself — exactly what the code does for Autogen
+      match parseTx (arg 0) kv with
+      | some t => ({ d with env := { d.env with txs := d.env.txs ++ [(t.id, { t with coinbase := true })] },
+                            autogen := t.id :: d.autogen }, "-")
       | none => (d, "bad-op")
     | "blk" =>
       let id := arg 0
@@ -185,7 +201,7 @@ def step (d : DS) (line : String) : DS × String :=
       ({ d with env := { d.env with txs := d.env.txs ++ [(aw, awTx)], blocks := d.env.blocks ++ [(id, b)] } }, "-")
     | "confirm" =>
       let b := d.env.block (arg 0)
-      let txs := b.txs.map (fun t => (t, (d.env.tx t).coinbase))
+      let txs := b.txs.map (fun t => (t, (d.env.tx t).coinbase && !d.autogen.contains t))
       let (l', st) := XV.Ledger.confirm d.l b.id (b.pre.getD 0) txs
       ({ d with l := l' }, st.toString)
     | "truncate" =>
@@ -198,13 +214,13 @@ def step (d : DS) (line : String) : DS × String :=
       let (s', r) := doTx d.env d.s (ledgerH d) (arg 0)
       ({ d with s := s' }, r.toString)
     | "play" =>
-      let (s', r) := play d.env d.s (ledgerH d) (d.env.block (arg 0))
-      ({ d with s := s' }, if r == .ok then "ok" else "fail:" ++ r.toString)
+      let (s', r) := play (verifyEnv d) d.s (ledgerH d) (d.env.block (arg 0))
+      ({ d with s := s' }, if r == .ok then "ok" else "fail")
     | "playminer" =>
       let (s', r) := playForMiner d.env d.s (ledgerH d) (d.env.block (arg 0))
-      ({ d with s := s' }, if r == .ok then "ok" else "fail:" ++ r.toString)
+      ({ d with s := s' }, if r == .ok then "ok" else "fail")
     | "walk" =>
-      let (s', ok) := walk d.env d.s (ledgerH d) (arg 0) (getKV kv "prune" == "1")
+      let (s', ok) := walk (verifyEnv d) d.s (ledgerH d) (arg 0) (getKV kv "prune" == "1")
       ({ d with s := s' }, if ok then "ok" else "fail")
     | "reopen" => (d, "ok")
     | "obs" => (d, observe d ++ " pool=" ++ poolStr d.s)
